@@ -106,7 +106,7 @@ impl IntoU128 for u128 { open spec fn uv(self) -> u128 { self } }
 impl IntoU128 for u64 { open spec fn uv(self) -> u128 { self as u128 } }
 
 impl Uint128 {
-    pub const fn new(v: u128) -> (r: Uint128) ensures r.0 == v { Uint128(v) }
+    pub const fn new(value: u128) -> (r: Uint128) ensures r.0 == value { Uint128(value) }
     pub const fn zero() -> (r: Uint128) ensures r.0 == 0 { Uint128(0) }
     pub const fn one() -> (r: Uint128) ensures r.0 == 1 { Uint128(1) }
     pub const fn u128(&self) -> (r: u128) ensures r == self.0 { self.0 }
@@ -128,19 +128,19 @@ impl Uint128 {
     /// uint128.rs:107-139 – computes floor(self * n / d) in 256 bits; panics when d == 0 or
     /// when the result does not fit in 128 bits.
     #[verifier::external_body]
-    pub fn multiply_ratio<A: IntoU128, B: IntoU128>(&self, n: A, d: B) -> (r: Uint128)
+    pub fn multiply_ratio<A: IntoU128, B: IntoU128>(&self, numerator: A, denominator: B) -> (r: Uint128)
         requires
-            d.uv() != 0,
-            muldiv(self.0 as nat, n.uv() as nat, d.uv() as nat) <= u128::MAX,
+            denominator.uv() != 0,
+            muldiv(self.0 as nat, numerator.uv() as nat, denominator.uv() as nat) <= u128::MAX,
         ensures
-            r.0 as nat == muldiv(self.0 as nat, n.uv() as nat, d.uv() as nat),
+            r.0 as nat == muldiv(self.0 as nat, numerator.uv() as nat, denominator.uv() as nat),
     { unimplemented!() }
     /// uint128.rs `checked_multiply_ratio`: Err(DivideByZero) / Err(Overflow) instead of panicking
     #[verifier::external_body]
-    pub fn checked_multiply_ratio<A: IntoU128, B: IntoU128>(&self, n: A, d: B) -> (r: Result<Uint128, CheckedMultiplyRatioError>)
+    pub fn checked_multiply_ratio<A: IntoU128, B: IntoU128>(&self, numerator: A, denominator: B) -> (r: Result<Uint128, CheckedMultiplyRatioError>)
         ensures
-            r is Ok <==> d.uv() != 0 && muldiv(self.0 as nat, n.uv() as nat, d.uv() as nat) <= u128::MAX,
-            r is Ok ==> r->Ok_0.0 as nat == muldiv(self.0 as nat, n.uv() as nat, d.uv() as nat),
+            r is Ok <==> denominator.uv() != 0 && muldiv(self.0 as nat, numerator.uv() as nat, denominator.uv() as nat) <= u128::MAX,
+            r is Ok ==> r->Ok_0.0 as nat == muldiv(self.0 as nat, numerator.uv() as nat, denominator.uv() as nat),
     { unimplemented!() }
     pub const MAX: Uint128 = Uint128(u128::MAX);
     pub fn saturating_sub(self, o: Uint128) -> (r: Uint128)
@@ -537,121 +537,15 @@ verus! {
 // Not used by the pinned code; modelled so that arithmetic rewritten with these std-like types
 // stays inside the verified subset.  Semantics from cosmwasm-std 1.5 math/{uint128,uint256,decimal}.rs:
 // the operators panic on overflow / underflow / zero divisor, the checked_* forms return Err.
-#[derive(Debug, Structural, PartialEq, Eq, Clone, Copy)]
-pub struct Uint256 { pub hi: u128, pub lo: u128 }
-pub open spec fn POW128() -> nat { 0x1_0000_0000_0000_0000nat * 0x1_0000_0000_0000_0000nat }
-impl Uint256 {
-    pub open spec fn v(self) -> nat { self.hi as nat * POW128() + self.lo as nat }
-    pub open spec fn fits(n: nat) -> bool { n < POW128() * POW128() }
-    #[verifier::external_body]
-    pub fn zero() -> (r: Uint256) ensures r.v() == 0 { unimplemented!() }
-    #[verifier::external_body]
-    pub fn one() -> (r: Uint256) ensures r.v() == 1 { unimplemented!() }
-    #[verifier::external_body]
-    pub fn from_u128(x: u128) -> (r: Uint256) ensures r.v() == x as nat { unimplemented!() }
-    #[verifier::external_body]
-    pub fn from_uint128(x: Uint128) -> (r: Uint256) ensures r.v() == x.0 as nat { unimplemented!() }
-    #[verifier::external_body]
-    pub fn is_zero(&self) -> (r: bool) ensures r == (self.v() == 0) { unimplemented!() }
-    #[verifier::external_body]
-    pub fn checked_add(self, o: Uint256) -> (r: Result<Uint256, OverflowError>)
-        ensures r is Ok <==> Self::fits(self.v() + o.v()), r is Ok ==> r->Ok_0.v() == self.v() + o.v()
-    { unimplemented!() }
-    #[verifier::external_body]
-    pub fn checked_sub(self, o: Uint256) -> (r: Result<Uint256, OverflowError>)
-        ensures r is Ok <==> self.v() >= o.v(), r is Ok ==> r->Ok_0.v() == self.v() - o.v()
-    { unimplemented!() }
-    #[verifier::external_body]
-    pub fn checked_mul(self, o: Uint256) -> (r: Result<Uint256, OverflowError>)
-        ensures r is Ok <==> Self::fits(self.v() * o.v()), r is Ok ==> r->Ok_0.v() == self.v() * o.v()
-    { unimplemented!() }
-    #[verifier::external_body]
-    pub fn checked_div(self, o: Uint256) -> (r: Result<Uint256, DivideByZeroError>)
-        ensures r is Ok <==> o.v() != 0, r is Ok ==> r->Ok_0.v() == self.v() / o.v()
-    { unimplemented!() }
-}
 #[derive(Debug)]
 pub struct DivideByZeroError { pub dummy: u8 }
 #[derive(Debug)]
 pub struct ConversionOverflowError { pub dummy: u8 }
-impl FromSpecImpl<Uint128> for Uint256 {
-    open spec fn obeys_from_spec() -> bool { false }
-    open spec fn from_spec(v: Uint128) -> Self { Uint256 { hi: 0, lo: v.0 } }
-}
-impl From<Uint128> for Uint256 {
-    #[verifier::external_body]
-    fn from(v: Uint128) -> (r: Uint256) ensures r.v() == v.0 as nat { unimplemented!() }
-}
-impl FromSpecImpl<u128> for Uint256 {
-    open spec fn obeys_from_spec() -> bool { false }
-    open spec fn from_spec(v: u128) -> Self { Uint256 { hi: 0, lo: v } }
-}
-impl From<u128> for Uint256 {
-    #[verifier::external_body]
-    fn from(v: u128) -> (r: Uint256) ensures r.v() == v as nat { unimplemented!() }
-}
-impl FromSpecImpl<u64> for Uint256 {
-    open spec fn obeys_from_spec() -> bool { false }
-    open spec fn from_spec(v: u64) -> Self { Uint256 { hi: 0, lo: v as u128 } }
-}
-impl From<u64> for Uint256 {
-    #[verifier::external_body]
-    fn from(v: u64) -> (r: Uint256) ensures r.v() == v as nat { unimplemented!() }
-}
-impl AddSpecImpl<Uint256> for Uint256 {
-    open spec fn obeys_add_spec() -> bool { false }
-    open spec fn add_req(self, o: Uint256) -> bool { Uint256::fits(self.v() + o.v()) }
-    open spec fn add_spec(self, o: Uint256) -> Uint256 { self }
-}
-impl core::ops::Add<Uint256> for Uint256 {
-    type Output = Uint256;
-    #[verifier::external_body]
-    fn add(self, o: Uint256) -> (r: Uint256) ensures r.v() == self.v() + o.v() { unimplemented!() }
-}
-impl vstd::std_specs::ops::SubSpecImpl<Uint256> for Uint256 {
-    open spec fn obeys_sub_spec() -> bool { false }
-    open spec fn sub_req(self, o: Uint256) -> bool { self.v() >= o.v() }
-    open spec fn sub_spec(self, o: Uint256) -> Uint256 { self }
-}
-impl core::ops::Sub<Uint256> for Uint256 {
-    type Output = Uint256;
-    #[verifier::external_body]
-    fn sub(self, o: Uint256) -> (r: Uint256) ensures r.v() == self.v() - o.v() { unimplemented!() }
-}
-impl vstd::std_specs::ops::MulSpecImpl<Uint256> for Uint256 {
-    open spec fn obeys_mul_spec() -> bool { false }
-    open spec fn mul_req(self, o: Uint256) -> bool { Uint256::fits(self.v() * o.v()) }
-    open spec fn mul_spec(self, o: Uint256) -> Uint256 { self }
-}
-impl core::ops::Mul<Uint256> for Uint256 {
-    type Output = Uint256;
-    #[verifier::external_body]
-    fn mul(self, o: Uint256) -> (r: Uint256) ensures r.v() == self.v() * o.v() { unimplemented!() }
-}
-impl vstd::std_specs::ops::DivSpecImpl<Uint256> for Uint256 {
-    open spec fn obeys_div_spec() -> bool { false }
-    open spec fn div_req(self, o: Uint256) -> bool { o.v() != 0 }
-    open spec fn div_spec(self, o: Uint256) -> Uint256 { self }
-}
-impl core::ops::Div<Uint256> for Uint256 {
-    type Output = Uint256;
-    #[verifier::external_body]
-    fn div(self, o: Uint256) -> (r: Uint256) ensures r.v() == self.v() / o.v() { unimplemented!() }
-}
-impl PartialOrdSpecImpl for Uint256 {
-    open spec fn obeys_partial_cmp_spec() -> bool { true }
-    open spec fn partial_cmp_spec(&self, o: &Uint256) -> Option<core::cmp::Ordering> {
-        if self.v() < o.v() { Some(core::cmp::Ordering::Less) } else if self.v() == o.v() { Some(core::cmp::Ordering::Equal) } else { Some(core::cmp::Ordering::Greater) }
-    }
-}
-impl PartialOrd for Uint256 {
-    #[verifier::external_body]
-    fn partial_cmp(&self, o: &Uint256) -> (r: Option<core::cmp::Ordering>) { unimplemented!() }
-}
+pub use crate::cw_uint256::*;
 impl Uint128 {
     /// `Uint128::full_mul`: the exact 256-bit product
     #[verifier::external_body]
-    pub fn full_mul<A: IntoU128>(self, o: A) -> (r: Uint256) ensures r.v() == self.0 as nat * o.uv() as nat { unimplemented!() }
+    pub fn full_mul(self, rhs: impl IntoU128) -> (r: Uint256) ensures r.v() == self.0 as nat * rhs.uv() as nat { unimplemented!() }
     /// `Uint128::try_from(Uint256)`
     #[verifier::external_body]
     pub fn try_from(x: Uint256) -> (r: Result<Uint128, ConversionOverflowError>)
